@@ -58,7 +58,8 @@ def parseXf (ws : List String) : Option (String × Xf) :=
 
 /-- the type list an xf op runs on (the harness uses L6 where the operation on the concrete g1 object does not
     compile either / the library documents homogeneous pixels only) -/
-def xfList (x : Xf) : List Fmt :=
+def xfList (B : Bool) (x : Xf) : List Fmt :=
+  if B then LB else
   match x with
   | .nth _ => L6
   | .cc d _ => if d.cs = .rgba then L6 else L7
@@ -69,12 +70,12 @@ def xfWritable : Xf → Bool | .cc _ _ => false | _ => true
 def descr {t : Tag} (r : View t) (bits : Nat) (m : Mem) : String :=
   s!"w={r.w} h={r.h} nc={t.fmt.nc} sz={r.w * r.h} px={dumpHex r bits m}"
 
-def modelXf (ws : List String) : String :=
+def modelXf (B : Bool) (ws : List String) : String :=
   match ws with
   | T :: w :: h :: s :: rest =>
     match Fmt.parse T, w.toNat?, h.toNat?, s.toNat?, parseXf rest with
     | some f, some w, some h, some s, some (name, x) =>
-      let L := xfList x
+      let L := xfList B x
       if !L.contains f then "bad-type" else
       let (img, hp) := heap0.make f w h s
       let v := img.view
@@ -94,15 +95,15 @@ def modelXf (ws : List String) : String :=
 def splitThen (ws : List String) : List String × List String :=
   (ws.takeWhile (· != "then"), (ws.dropWhile (· != "then")).drop 1)
 
-def xf2List (x2 : Xf) : List Fmt := match x2 with | .nth _ => L6 | _ => L7
+def xf2List (B : Bool) (x2 : Xf) : List Fmt := if B then LB else match x2 with | .nth _ => L6 | _ => L7
 
-def modelXf2 (ws : List String) : String :=
+def modelXf2 (B : Bool) (ws : List String) : String :=
   match ws with
   | T :: w :: h :: s :: rest =>
     let (r1, r2) := splitThen rest
     match Fmt.parse T, w.toNat?, h.toNat?, s.toNat?, parseXf r1, parseXf r2 with
     | some f, some w, some h, some s, some (n1, x1), some (n2, x2) =>
-      let L := xf2List x2
+      let L := xf2List B x2
       if !L.contains f then "bad-type" else
       let (img, hp) := heap0.make f w h s
       let v := img.view
@@ -130,12 +131,12 @@ def parseBin (name : String) (extra : List String) : Option BinAlg :=
   | "rs", e => if e.length = 6 then (ints e).map .rs else none
   | _, _ => none
 
-def modelBin (name : String) (ws : List String) : String :=
+def modelBin (B : Bool) (name : String) (ws : List String) : String :=
   match ws with
   | _mode :: T1 :: T2 :: w1 :: h1 :: w2 :: h2 :: s1 :: s2 :: dpos :: extra =>
     match Fmt.parse T1, Fmt.parse T2, [w1, h1, w2, h2, s1, s2].mapM String.toNat?, dpos.toInt?, parseBin name extra with
     | some f1, some f2, some [w1, h1, w2, h2, s1, s2], some dpos, some alg =>
-      let L := match alg with | .ccopy _ => L6 | _ => L7
+      let L := if B then LB else match alg with | .ccopy _ => L6 | _ => L7
       if !(L.contains f1 && L.contains f2) then "bad-type" else
       let (ia, hp1) := heap0.make f1 w1 h1 s1
       let (ib, hp2) := hp1.make f2 w2 h2 s2
@@ -161,11 +162,12 @@ def modelBin (name : String) (ws : List String) : String :=
 
 /-! #### unary algorithms -/
 
-def modelFill (ws : List String) : String :=
+def modelFill (B : Bool) (ws : List String) : String :=
   match ws with
   | [T, P, w, h, s, c0, c1, c2, c3] =>
     match Fmt.parse T, Fmt.parse P, [w, h, s, c0, c1, c2, c3].mapM String.toNat? with
     | some f, some pf, some [w, h, s, c0, c1, c2, c3] =>
+      if !(if B then LB else L7).contains f then "bad-type" else
       let (img, hp) := heap0.make f w h s
       let v := img.view
       let sem := ([c0, c1, c2, c3].take pf.nc).map (· % 2 ^ pf.bits)
@@ -178,11 +180,12 @@ def modelFill (ws : List String) : String :=
     | _, _, _ => "bad-op"
   | _ => "bad-op"
 
-def modelForeach (ws : List String) : String :=
+def modelForeach (B : Bool) (ws : List String) : String :=
   match ws with
   | [T, w, h, s] =>
     match Fmt.parse T, [w, h, s].mapM String.toNat? with
     | some f, some [w, h, s] =>
+      if !(if B then LB else L7).contains f then "bad-type" else
       let (img, hp) := heap0.make f w h s
       let v := img.view
       let (n, m) := anyForEach (wrap v) hp.mem
@@ -196,7 +199,8 @@ def modelForeach (ws : List String) : String :=
 def toggleImg (a : AnyImage) (m : Mem) (x y : Int) : Mem := toggleAt a.2.view m x y
 def dumpImg (a : AnyImage) (m : Mem) : String := dumpHex a.2.view a.1.bits m
 
-def modelImg (ws : List String) : String :=
+def modelImg (B : Bool) (ws : List String) : String :=
+  let L7 := if B then LB else L7
   match ws with
   | ["dims", T, w, h, s] =>
     match Fmt.parse T, [w, h, s].mapM String.toNat? with
@@ -275,14 +279,21 @@ def modelImg (ws : List String) : String :=
     | _, _ => "bad-op"
   | _ => "bad-op"
 
-def model (line : String) : String :=
+/-- op words and the list selector: a leading `B` selects the second representative list -/
+def opWords (line : String) : Bool × List String :=
   match words line with
-  | "xf" :: rest => modelXf rest
-  | "xf2" :: rest => modelXf2 rest
-  | "fill" :: rest => modelFill rest
-  | "foreach" :: rest => modelForeach rest
-  | "img" :: rest => modelImg rest
-  | name :: rest => if ["copy", "equal", "ccopy", "ccopyx", "rs", "rsz"].contains name then modelBin name rest else "bad-op"
+  | "B" :: rest => (true, rest)
+  | ws => (false, ws)
+
+def model (line : String) : String :=
+  let (B, ws) := opWords line
+  match ws with
+  | "xf" :: rest => modelXf B rest
+  | "xf2" :: rest => modelXf2 B rest
+  | "fill" :: rest => modelFill B rest
+  | "foreach" :: rest => modelForeach B rest
+  | "img" :: rest => modelImg B rest
+  | name :: rest => if ["copy", "equal", "ccopy", "ccopyx", "rs", "rsz"].contains name then modelBin B name rest else "bad-op"
   | _ => "bad-op"
 
 /-! ### judge: the Spec of C14 evaluated on the IMPLEMENTATION's observation
@@ -329,20 +340,20 @@ def judgeLifted (f : Fmt) (L : List Fmt) (tg : Fmt → Tag) (obs : String) : Str
       | _, _ => fail ("unexpected-observation:" ++ obs.take 60)
     | _ => fail ("unexpected-observation:" ++ obs.take 60)
 
-def judgeXf (ws : List String) (obs : String) : String :=
+def judgeXf (B : Bool) (ws : List String) (obs : String) : String :=
   match ws with
   | T :: _w :: _h :: _s :: rest =>
     match Fmt.parse T, parseXf rest with
-    | some f, some (_, x) => judgeLifted f (xfList x) (fun g => x.tag (Tag.ofFmt g)) obs
+    | some f, some (_, x) => judgeLifted f (xfList B x) (fun g => x.tag (Tag.ofFmt g)) obs
     | _, _ => fail "bad-op"
   | _ => fail "bad-op"
 
-def judgeXf2 (ws : List String) (obs : String) : String :=
+def judgeXf2 (B : Bool) (ws : List String) (obs : String) : String :=
   match ws with
   | T :: _w :: _h :: _s :: rest =>
     let (r1, r2) := splitThen rest
     match Fmt.parse T, parseXf r1, parseXf r2 with
-    | some f, some (_, x1), some (_, x2) => judgeLifted f (xf2List x2) (fun g => x2.tag (x1.tag (Tag.ofFmt g))) obs
+    | some f, some (_, x1), some (_, x2) => judgeLifted f (xf2List B x2) (fun g => x2.tag (x1.tag (Tag.ofFmt g))) obs
     | _, _, _ => fail "bad-op"
   | _ => fail "bad-op"
 
@@ -404,7 +415,8 @@ def judgeForeach (obs : String) : String :=
     else "ok"
   | _ => fail ("unexpected-observation:" ++ obs.take 60)
 
-def judgeImg (ws : List String) (obs : String) : String :=
+def judgeImg (B : Bool) (ws : List String) (obs : String) : String :=
+  let L7 := if B then LB else L7
   let parts := splitBars obs
   match ws with
   | "dims" :: T :: _ =>
@@ -458,12 +470,13 @@ def judgeImg (ws : List String) (obs : String) : String :=
   | _ => fail "bad-op"
 
 def judge (op obs : String) : String :=
-  match words op with
-  | "xf" :: rest => judgeXf rest obs
-  | "xf2" :: rest => judgeXf2 rest obs
+  let (B, ws) := opWords op
+  match ws with
+  | "xf" :: rest => judgeXf B rest obs
+  | "xf2" :: rest => judgeXf2 B rest obs
   | "fill" :: rest => judgeFill rest obs
   | "foreach" :: _ => judgeForeach obs
-  | "img" :: rest => judgeImg rest obs
+  | "img" :: rest => judgeImg B rest obs
   | name :: rest => if ["copy", "equal", "ccopy", "ccopyx", "rs", "rsz"].contains name then judgeBin name rest obs else fail "bad-op"
   | _ => fail "bad-op"
 
